@@ -28,7 +28,8 @@ ASSUMPTIONS = ["hash seeds, working directories and address-space layouts are sa
                "the RNG tap replaces the class of random._inst and the module-level functions; it leaves the generated stream unchanged"]
 REQUIRED = ["process_groups_compared", "processes_spawned", "hashseed_random_runs", "cwd_outside_git_runs", "saved_files_compared",
             "inprocess_double_runs", "trace_runs", "trace_seed_events", "trace_draw_events", "library_double_calls", "seed_zero_cases",
-            "negative_seed_cases", "big_seed_cases", "verbose_header_cases", "tool_cnfgen", "tool_pbgen", "tool_cnfshuffle"]
+            "negative_seed_cases", "big_seed_cases", "verbose_header_cases", "tool_cnfgen", "tool_pbgen", "tool_cnfshuffle",
+            "graph_file_with_named_vertices"]
 CASE_TIMEOUT = {"quick": 600, "thorough": 3600}
 SEEDS = [0, 1, 42, -7, 2 ** 40]
 ADDR = re.compile(r"0x[0-9a-fA-F]{6,}")
@@ -69,9 +70,43 @@ def corpus():
     for sub, tail in small():
         if is_random(tail) and sub in ("php", "subsetcard", "tseitin", "randkcnf", "randkxor", "kcolor", "stone", "op", "matching"):
             out.append(("pbgen", tail, ""))
+    # graph files whose vertices have non-numeric names (numbering must not depend on hash order)
+    for t in (["kcolor", "3", "@SIMPLE_DOT"], ["matching", "@SIMPLE_DOT", "plantclique", "3"], ["op", "@SIMPLE_DOT"],
+              ["php", "@BIP_DOT"], ["php", "--functional", "@BIP_DOT", "addedges", "2"], ["subsetcard", "@BIP_DOT"],
+              ["php", "@BIP_DOT", "plantbiclique", "2", "2"], ["peb", "@DAG_DOT"], ["stone", "2", "@DAG_DOT"],
+              ["tseitin", "randomodd", "@SIMPLE_DOT"], ["iso", "@SIMPLE_DOT", "-e", "@SIMPLE_DOT"]):
+        out.append(("cnfgen", t, ""))
+    out.append(("pbgen", ["subsetcard", "@BIP_DOT"], ""))
+    out.append(("pbgen", ["php", "@BIP_DOT", "addedges", "1"], ""))
     text = "p cnf 6 5\n1 -2 3 0\n-1 4 0\n5 6 0\n-3 -4 -5 0\n2 0\n"
     for flags in ([], ["-p"], ["-v"], ["-c"], ["-p", "-c"]):
         out.append(("cnfshuffle", flags, text))
+    return out
+
+
+FILES = {
+    "@SIMPLE_DOT": ("people.dot", 'graph people {\n  alice -- bob;\n  bob -- carol;\n  carol -- dave;\n  dave -- alice;\n  erin -- alice;\n'
+                                  '  frank -- carol;\n  grace;\n  heidi -- bob;\n  ivan -- judy;\n  judy -- alice;\n}\n'),
+    "@BIP_DOT": ("pairs.dot", 'graph pairs {\n' + "".join('  %s [bipartite=0];\n' % n for n in ("ann", "bo", "cy", "di", "ed"))
+                 + "".join('  %s [bipartite=1];\n' % n for n in ("hole_x", "hole_y", "hole_z", "hole_w"))
+                 + '  ann -- hole_x;\n  ann -- hole_y;\n  bo -- hole_y;\n  cy -- hole_z;\n  di -- hole_w;\n  ed -- hole_x;\n  ed -- hole_z;\n}\n'),
+    "@DAG_DOT": ("steps.dot", 'digraph steps {\n  a1 -> b2;\n  a1 -> c3;\n  b2 -> d4;\n  c3 -> d4;\n  d4 -> e5;\n}\n'),
+}
+
+
+def materialise(tail, directory):
+    """Replace @FILE tokens by paths of files written into `directory` (same path for every run of a group)."""
+    out = []
+    for t in tail:
+        if t in FILES:
+            name, text = FILES[t]
+            path = os.path.join(directory, name)
+            if not os.path.exists(path):
+                with open(path, "w") as f:
+                    f.write(text)
+            out.append(path)
+        else:
+            out.append(t)
     return out
 
 
@@ -96,7 +131,9 @@ def case_processes(ctx, lo, hi, seeds, verbose_every):
                 verbose = (i % verbose_every == 0)
                 opts = [] if verbose else ["-q"]
                 save_paths = []
-                argv_tail = list(tail)
+                argv_tail = materialise(tail, scratch)
+                if argv_tail != list(tail):
+                    ctx.count("graph_file_with_named_vertices")
                 # save a random graph as well: the stored file is part of the output
                 if tool == "cnfgen" and tail[0] in ("matching", "kcolor") and "-T" not in tail and i % 3 == 0:
                     argv_tail = argv_tail + ["save", "kthlist", "SAVEPATH"]
@@ -220,7 +257,16 @@ def install_tap(trace):
 def case_inprocess(ctx, lo, hi, seeds):
     """same argv + seed twice in one process; RNG event trace against the trace specification"""
     items = corpus()[lo:hi]
+    scratch = tempfile.mkdtemp(prefix="c07i-")
+    try:
+        _inprocess(ctx, items, seeds, scratch)
+    finally:
+        shutil.rmtree(scratch, ignore_errors=True)
+
+
+def _inprocess(ctx, items, seeds, scratch):
     for (tool, tail, stdin_text) in items:
+        tail = materialise(tail, scratch)
         for seed in seeds:
             argv = seed_args(tool, seed) + ["-q"] + list(tail)
             label = "%s %s" % (tool, " ".join(argv))
@@ -316,7 +362,7 @@ def workload(tier, seed):
     # fresh processes: a slice of the corpus per seed value (all of it in thorough)
     step = 4
     for lo in range(0, n, step):
-        if q and (lo // step + seed) % 4 != 0 and lo + step < n:
+        if q and (lo // step + seed) % 4 != 0 and lo + step < n and not any("@" in t for it in corpus()[lo:lo + step] for t in it[1]):
             continue              # quick: a quarter of the corpus in fresh processes (rotates with VERIF_SEED), all of it in-process
         if q:
             seeds = [SEEDS[(lo // step + seed) % len(SEEDS)]]
